@@ -1292,7 +1292,15 @@ eval:
 // EvalSExpr evaluates s and returns the resulting LVal.
 func (env *LEnv) EvalSExpr(s *LVal) *LVal {
 	defer env.Runtime.beginEval()()
-	return env.evalSExpr(env.evalCtx, s)
+	// Like Eval: s is the form being evaluated.  Without this the frame
+	// pushed for the call, and an error raised before any sub-form is
+	// evaluated, carry whatever location an earlier, unrelated evaluation
+	// left on env.
+	loc := env.loc
+	env.loc = s.source
+	r := env.evalSExpr(env.evalCtx, s)
+	env.loc = loc
+	return r
 }
 
 func (env *LEnv) evalSExpr(ctx context.Context, s *LVal) *LVal {
